@@ -1,6 +1,6 @@
 (* C12 -- concurrent senders never interleave packets.  Statements only; proofs in Proofs/C12_*.v. *)
 From Coq Require Import List Arith Bool Sorting.Sorted.
-From EN Require Import Lib.Bytes Conc.FairLock Conc.Guard Conc.SendSerial Proofs.C12_fairlock Proofs.C12_wire Proofs.C12_guard Proofs.C12_order Conc.TlsSend Proofs.C12_tls.
+From EN Require Import Lib.Bytes Conc.FairLock Conc.Guard Conc.SendSerial Conc.AsyncioLock Proofs.C12_fairlock Proofs.C12_asynciolock Proofs.C12_wire Proofs.C12_guard Proofs.C12_order Conc.TlsSend Proofs.C12_tls.
 Import ListNotations.
 
 (* FairLock, every label sequence (acquire / resume / cancel of ANY waiter at ANY time / release): at most one holder,
@@ -45,16 +45,43 @@ Example fairlock_run_example :
             /\ fl_holders s = [2] /\ fl_acq s = [0; 2] /\ fl_cancelled s = [1].
 Proof. eexists. split; [vm_compute; reflexivity|]. repeat split. Qed.
 
-(* N senders, any programs, with the client lock (ul = true: AsyncTCPNetworkClient, server-side client) or without
-   (ul = false: AsyncStreamEndpoint used directly), every label sequence (start / resume / transport suspension ends
+(* CPython 3.12's asyncio.Lock (Conc/AsyncioLock.v), every label sequence (acquire / a pending waiter's future cancelled
+   at once by task.cancel() / resume / CancelledError at the await, for a cancelled OR an already woken waiter /
+   release): at most one holder, a holder implies _locked *)
+Theorem asynciolock_mutex :
+  forall (ls : list alabel) (s : al), al_run al_init ls = Some s ->
+    length (al_holders s) <= 1 /\ (al_holders s <> [] -> al_locked s = true).
+Proof. exact asynciolock_mutex_proof. Qed.
+Print Assumptions asynciolock_mutex.
+
+(* free lock + non-empty queue: the head's future is done and its continuation is enabled: woken -> it takes the lock;
+   cancelled -> it leaves and, the lock being free, wakes the next waiter *)
+Theorem asynciolock_no_lost_wakeup :
+  forall (ls : list alabel) (s : al) (w : awaiter) (r : list awaiter), al_run al_init ls = Some s ->
+    al_locked s = false -> al_waiters s = w :: r ->
+    (aw_st w = WWoken /\ exists s', al_step s (ALResume (aw_tid w)) = Some (s', [OAcquired (aw_tid w)]) /\
+                                    al_holders s' = [aw_tid w] /\ al_waiters s' = r) \/
+    (aw_st w = WCancelled /\ exists s', al_step s (ALCancel (aw_tid w)) = Some (s', [OCancelled (aw_tid w)]) /\
+                                        al_waiters s' = al_wake_first r /\ al_locked s' = false).
+Proof. exact asynciolock_no_lost_wakeup_proof. Qed.
+Print Assumptions asynciolock_no_lost_wakeup.
+
+Theorem asynciolock_no_deadlock :
+  forall (ls : list alabel) (s : al), al_run al_init ls = Some s -> al_waiters s <> [] ->
+    (exists t, al_holders s = [t]) \/ (exists w r, al_waiters s = w :: r /\ aw_st w <> WPending).
+Proof. exact asynciolock_no_deadlock_proof. Qed.
+Print Assumptions asynciolock_no_deadlock.
+
+(* N senders, any programs, whatever the send lock (k = LFair: the FairLock of /repo; LAsyncio: CPython's asyncio.Lock,
+   what AsyncTCPNetworkClient and the server-side client get on the asyncio backend; LNone: AsyncStreamEndpoint used directly), every label sequence (start / resume / transport suspension ends
    normally or with an error / cancellation of any task at any await):
    - the wire is the concatenation, in the order in which the sends got hold of the transport, of one segment per send;
    - a segment is a prefix (whole pieces) of its packet, and the whole packet when the send completed;
    - only the newest segment can still be in progress: packets never interleave;
    - when every send completed (nothing cancelled or failed), the wire is exactly the concatenation of the packets. *)
 Theorem wire_is_concat_of_packets :
-  forall (ul : bool) (progs : list (list packet)) (ls : list slabel) (s : st),
-    s_run (st_init ul progs) ls = Some s ->
+  forall (k : lkind) (progs : list (list packet)) (ls : list slabel) (s : st),
+    s_run (st_init k progs) ls = Some s ->
     s_wire s = concat (map seg_bytes (rev (s_segs s))) /\
     (forall g, In g (s_segs s) ->
        seg_bytes g = concat (firstn (sg_written g) (sg_pkt g)) /\ sg_written g <= length (sg_pkt g) /\
@@ -69,7 +96,7 @@ Print Assumptions wire_is_concat_of_packets.
    a task suspended inside the transport is THE lock holder and holds the guard. *)
 Theorem guard_never_busy_under_lock :
   forall (progs : list (list packet)) (ls : list slabel) (s : st),
-    s_run (st_init true progs) ls = Some s ->
+    s_run (st_init LFair progs) ls = Some s ->
     (forall t, nth_error (s_tasks s) t <> Some (TDone c_busy)) /\ s_crashed s = false /\
     (forall t todo rest, nth_error (s_tasks s) t = Some (TSend todo rest) ->
        fl_holders (s_lock s) = [t] /\ s_guard s = true).
@@ -82,8 +109,8 @@ Print Assumptions guard_never_busy_under_lock.
    sent nothing, a task waiting for the lock still has its current packet to send, a task that returned normally
    (c_ok) has nothing left: all its packets are segments of the wire (wire_is_concat_of_packets). *)
 Theorem per_sender_order :
-  forall (ul : bool) (progs : list (list packet)) (ls : list slabel) (s : st),
-    s_run (st_init ul progs) ls = Some s ->
+  forall (k : lkind) (progs : list (list packet)) (ls : list slabel) (s : st),
+    s_run (st_init k progs) ls = Some s ->
     forall (t : tid) (ts : tstate), nth_error (s_tasks s) t = Some ts ->
       exists rem, rev (owned t (s_segs s)) ++ rem = nth t progs [] /\
                   match ts with
@@ -113,7 +140,7 @@ Proof. eexists. split; [vm_compute; reflexivity|]. split; reflexivity. Qed.
 
 (* non-vacuity: two senders with the lock, the second one parks, the first completes, the hand-off happens *)
 Example send_serial_example :
-  exists s, s_run (st_init true [[[[1%N]; [2%N]]]; [[[3%N]]]])
+  exists s, s_run (st_init LFair [[[[1%N]; [2%N]]]; [[[3%N]]]])
                   [SStart 0; SStart 1; SWrite 0; SWrite 0; SResume 1; SWrite 1] = Some s
             /\ s_wire s = [1%N; 2%N; 3%N] /\ all_complete (s_segs s).
 Proof. eexists. split; [vm_compute; reflexivity|]. split; [reflexivity|]. repeat constructor. Qed.
